@@ -86,6 +86,44 @@ enum Cmd {
     Exec(Op),
     Poison(u8),
     Exit,
+    /// exit, and make this call from the caller's thread-local destructor while exiting
+    ExitCall(Op),
+}
+
+/// The caller's own per-thread object with a destructor ("flush my stats when the thread ends").
+/// Every worker touches it before its first library call, so it is registered first and destroyed last.
+struct ExitHook {
+    job: Option<(Op, Sender<OpResult>)>,
+}
+
+impl Drop for ExitHook {
+    fn drop(&mut self) {
+        if let Some((op, tx)) = self.job.take() {
+            let r = std::panic::catch_unwind(std::panic::AssertUnwindSafe(|| {
+                let mut arena = Arena::new();
+                exec(&op, &mut arena)
+            }));
+            let r = match r {
+                Ok(r) => r,
+                Err(_) => {
+                    let mut o = OpResult::default();
+                    o.caught_panic = true;
+                    o.record = "panic".into();
+                    o.violations.push(Violation {
+                        prop: "C10",
+                        msg: "the call panicked outside the library's documented panic points while the thread was exiting".into(),
+                        tag: "",
+                    });
+                    o
+                },
+            };
+            let _ = tx.send(r);
+        }
+    }
+}
+
+thread_local! {
+    static EXIT_HOOK: std::cell::RefCell<ExitHook> = std::cell::RefCell::new(ExitHook { job: None });
 }
 
 struct Worker {
@@ -98,9 +136,15 @@ fn spawn_worker() -> Worker {
     let (tx, crx) = channel::<Cmd>();
     let (rtx, rx) = channel::<OpResult>();
     let handle = std::thread::spawn(move || {
+        EXIT_HOOK.with(|h| h.borrow_mut().job = None); // first touch: before any library call
         let mut arena = Arena::new();
         while let Ok(cmd) = crx.recv() {
             match cmd {
+                Cmd::ExitCall(op) => {
+                    let tx = rtx.clone();
+                    EXIT_HOOK.with(|h| h.borrow_mut().job = Some((op, tx)));
+                    break;
+                },
                 Cmd::Exec(op) => {
                     let r = exec(&op, &mut arena);
                     if rtx.send(r).is_err() {
@@ -172,6 +216,16 @@ fn first_use_key(op: &Op) -> String {
             idx,
             ..
         } => format!("pnc/{}/{}", ty.name(), idx),
+        Op::PInfCustom {
+            ty,
+            idx,
+            ..
+        } => format!("pic/{}/{}", ty.name(), idx),
+        Op::WFloatDigits {
+            ty,
+            max,
+            ..
+        } => format!("wfd/{}/{}", ty.name(), max),
     }
 }
 
@@ -206,9 +260,16 @@ fn repeat_props(op: &Op) -> Vec<&'static str> {
         Op::PNanCustom {
             ..
         }
+        | Op::PInfCustom {
+            ..
+        }
         | Op::WNanCustom {
             ..
         } => vec!["C15"],
+        // the same value with the same options written twice, whatever the reused buffer held
+        Op::WFloatDigits {
+            ..
+        } => vec!["C17"],
         Op::WFloatBreaks {
             ..
         } => vec!["C02"],
@@ -285,6 +346,10 @@ fn run_gated(events: &[Event], keep_records: bool) -> Report {
             | Event::Poison {
                 t,
                 ..
+            }
+            | Event::ExitCall {
+                t,
+                ..
             } => *t,
         })
         .max()
@@ -312,6 +377,42 @@ fn run_gated(events: &[Event], keep_records: bool) -> Report {
                     *stats.faults.entry("thread_death").or_insert(0) += 1;
                 }
                 fnv(&mut stats.sched_hash, &[0xfe, *t as u8]);
+            },
+            Event::ExitCall {
+                t,
+                op,
+            } => {
+                // the worker exits; its last call happens inside the caller's thread-local destructor
+                let w = workers[*t].take().unwrap_or_else(spawn_worker);
+                w.tx.send(Cmd::ExitCall(op.clone())).expect("HARNESS: worker gone");
+                let _ = w.handle.join();
+                *stats.faults.entry("call_during_thread_exit").or_insert(0) += 1;
+                fnv(&mut stats.sched_hash, &[0xfc, *t as u8]);
+                match w.rx.try_recv() {
+                    Ok(res) => {
+                        account(&mut stats, op, &res);
+                        for v in res.violations {
+                            found.push(Found {
+                                index: i,
+                                thread: *t,
+                                prop: v.prop.to_string(),
+                                msg: format!("(call made from a thread-local destructor during thread exit) {}", v.msg),
+                                op: op.describe(),
+                                tag: v.tag.to_string(),
+                                enc: op.encode(),
+                            });
+                        }
+                    },
+                    Err(_) => found.push(Found {
+                        index: i,
+                        thread: *t,
+                        prop: "C10".into(),
+                        msg: "the call made during thread exit never returned a result (the thread was torn down)".into(),
+                        op: op.describe(),
+                        tag: String::new(),
+                        enc: op.encode(),
+                    }),
+                }
             },
             Event::Poison {
                 t,
@@ -434,13 +535,28 @@ fn run_free(lists: &[Vec<Op>], lite: bool) -> Report {
     }
     let contended = first_keys.values().filter(|&&n| n > 1).count() as u64;
     let mut handles = Vec::new();
+    let mut exit_results: Vec<(usize, Option<Op>, Receiver<OpResult>)> = Vec::new();
     for (t, list) in lists.iter().cloned().enumerate() {
         let barrier = barrier.clone();
         let shared = shared.clone();
+        let (xtx, xrx) = channel::<OpResult>();
+        exit_results.push((t, list.last().cloned(), xrx));
         handles.push(std::thread::spawn(move || {
+            EXIT_HOOK.with(|h| h.borrow_mut().job = None); // first touch: before any library call
             let mut arena = Arena::new();
             barrier.wait();
-            for (i, op) in list.iter().enumerate() {
+            // odd-numbered workers make their last call from the caller's thread-local destructor
+            let in_hook = t % 2 == 1 && list.len() >= 2;
+            let n_inline = if in_hook {
+                list.len() - 1
+            } else {
+                list.len()
+            };
+            if in_hook {
+                let op = list[list.len() - 1].clone();
+                EXIT_HOOK.with(|h| h.borrow_mut().job = Some((op, xtx)));
+            }
+            for (i, op) in list.iter().take(n_inline).enumerate() {
                 let res = exec_mode(op, &mut arena, lite);
                 // completion order across threads is the observable interleaving
                 let mut g = shared.lock().unwrap();
@@ -470,6 +586,23 @@ fn run_free(lists: &[Vec<Op>], lite: bool) -> Report {
         Ok(m) => m.into_inner().unwrap_or_else(|e| e.into_inner()),
         Err(_) => panic!("HARNESS: shared state still referenced"),
     };
+    for (t, op, rx) in exit_results {
+        if let (Ok(res), Some(op)) = (rx.try_recv(), op) {
+            *stats.faults.entry("call_during_thread_exit").or_insert(0) += 1;
+            account(&mut stats, &op, &res);
+            for v in res.violations {
+                found.push(Found {
+                    index: 0,
+                    thread: t,
+                    prop: v.prop.to_string(),
+                    msg: format!("(call made from a thread-local destructor during thread exit) {}", v.msg),
+                    op: op.describe(),
+                    tag: v.tag.to_string(),
+                    enc: op.encode(),
+                });
+            }
+        }
+    }
     for t in died {
         found.push(Found {
             index: 0,
@@ -796,6 +929,10 @@ fn main() {
                     Event::Exec {
                         t,
                         ..
+                    }
+                    | Event::ExitCall {
+                        t,
+                        ..
                     } => *t + 1,
                     _ => 0,
                 })
@@ -804,6 +941,10 @@ fn main() {
             let mut lists: Vec<Vec<Op>> = vec![Vec::new(); threads];
             for e in &events {
                 if let Event::Exec {
+                    t,
+                    op,
+                }
+                | Event::ExitCall {
                     t,
                     op,
                 } = e
